@@ -148,3 +148,47 @@ def merge_purity_obligations(repo, rel="redun/utils.py", entry="merge_dicts"):
     if not out:
         out.append((f"{rel}:{entry}:pure", True, "", rel, m.funcs[entry].lineno))
     return out
+
+
+def hash_purity_obligations(repo, rels=("redun/value.py", "redun/task.py", "redun/expression.py", "redun/file.py", "redun/hashing.py")):
+    """A value's hash is a function of the value (its serialisation) alone.  A get_hash/_calc_hash/hash_* that reads a module-level mutable
+    container (a memo dict) makes the hash depend on what else was hashed in the process: a memo keyed by the instance equates values that are
+    `==` but not identical in type (1 and 1.0, 0 and -0.0, True and 1), one keyed by anything coarser than the serialisation equates more.
+    Yields (construct, ok, message, rel, line)."""
+    out = []
+    for rel in rels:
+        mod = repo.mod(rel)
+        mutable_globals = {}
+        for st in mod.tree.body:
+            tg, v = None, None
+            if isinstance(st, ast.Assign) and len(st.targets) == 1 and isinstance(st.targets[0], ast.Name):
+                tg, v = st.targets[0].id, st.value
+            elif isinstance(st, ast.AnnAssign) and isinstance(st.target, ast.Name) and st.value is not None:
+                tg, v = st.target.id, st.value
+            if tg is None:
+                continue
+            if isinstance(v, (ast.Dict, ast.List, ast.Set)) or (isinstance(v, ast.Call) and (call_name(v) or "").split(".")[-1] in ("dict", "list", "set", "defaultdict", "OrderedDict", "WeakValueDictionary", "WeakKeyDictionary")):
+                mutable_globals[tg] = st.lineno
+        for q, fn in mod.funcs.items():
+            leaf = q.split(".")[-1]
+            if leaf not in ("get_hash", "_calc_hash") and not leaf.startswith("hash_"):
+                continue
+            # only reads that can influence the result: subscripts / .get() / membership tests on the global
+            used = []
+            for n in ast.walk(fn):
+                if isinstance(n, ast.Name) and n.id in mutable_globals and isinstance(n.ctx, ast.Load):
+                    par = mod.parent.get(n)
+                    writes_only = isinstance(par, ast.Subscript) and isinstance(par.ctx, ast.Store)
+                    if not writes_only:
+                        used.append(n)
+            out.append(
+                (
+                    f"{rel}:{q}:reads-module-state",
+                    not used,
+                    f"{q} reads the module-level container `{used[0].id if used else ''}` (line {used[0].lineno if used else 0}): a hash served from a memo depends on what was hashed before in this process -- "
+                    "keyed by the value itself it gives 1 and 1.0 (equal, same Python hash) one hash, so f(1) and f(1.0) become the same expression and are merged",
+                    rel,
+                    used[0].lineno if used else fn.lineno,
+                )
+            )
+    return out
